@@ -464,16 +464,25 @@ def proportional(a: Activate) -> None:
     init = [d for d in cfg.defs_reaching(sum_name, [p for p, _ in a.main_head.pred if p.kind == "iter"][0])]
     init_ok = len(init) == 1 and init[0].value is not None and const_value(r.term(init[0].value, init[0].node)) == 0
     check.require(init_ok, "G", a.construct("sum-seed"), "the sum of degrees starts at 0", loc(fn, init[0].node if init else sn))
-    # second loop over the collected rules
-    second = [h for h in cfg.loop_heads() if h.kind == "for" and isinstance(h.ast.iter, ast.Name)  # type: ignore[union-attr]
-              and h.ast.iter.id == collected and h is not a.main_head]  # type: ignore[union-attr]
+    # second loop over the collected rules (for-each or index loop)
+    second = []
+    for h_ in cfg.loop_heads():
+        if h_.kind != "for" or h_ is a.main_head:
+            continue
+        itn = [q for q, _ in h_.pred if q.kind == "iter"]
+        if not itn:
+            continue
+        names = {x.id for x in ast.walk(h_.ast.iter) if isinstance(x, ast.Name)}  # type: ignore[union-attr]
+        base_, dir_ = iter_base(r.term(h_.ast.iter, itn[0]))  # type: ignore[union-attr]
+        if collected in names and base_ == r.name_term(collected, itn[0]):
+            second.append(h_)
     if len(second) != 1:
         raise AnalysisError("Proportional.activate: no loop over the collected rules")
     h2 = second[0]
     if not cfg.dominates(a.main_head, h2) or h2 in a.body:
         raise AnalysisError("Proportional.activate: normalisation loop is not after the collection loop")
     b2 = cfg.loop_body(h2)
-    elem2 = ("elem", r.term(h2.ast.iter, [p for p, _ in h2.pred if p.kind == "iter"][0]))  # type: ignore[union-attr]
+    elem2 = ("elem", iter_base(r.term(h2.ast.iter, [p for p, _ in h2.pred if p.kind == "iter"][0]))[0])  # type: ignore[union-attr]
     divs = []
     for n in b2:
         if n.kind != "stmt":
